@@ -834,9 +834,20 @@ def unpack_special_typing_primitive(spec: ValueSpec) -> Optional[Expression]:
                 union_args = get_args(spec.type)
                 for annotation in spec.annotations:
                     if isinstance(annotation, Discriminator):
-                        return DiscriminatedUnionUnpackerBuilder(
-                            annotation, union_args
+                        # Optional[Union[A, B]] is Union[A, B, None]: None is
+                        # a value of the field, not a variant to dispatch to
+                        variant_args = tuple(
+                            arg for arg in union_args if arg is not NoneType
+                        )
+                        du = DiscriminatedUnionUnpackerBuilder(
+                            annotation, variant_args
                         ).build(spec)
+                        if len(variant_args) != len(union_args):
+                            return (
+                                f"{du} if {spec.expression} is not None "
+                                "else None"
+                            )
+                        return du
                 return UnionUnpackerBuilder(union_args).build(spec)
         elif spec.origin_type is typing.AnyStr:
             raise UnserializableDataError(
